@@ -564,7 +564,7 @@ func checkC13(c *Ctx) {
 			}
 			k++
 			c.check("combinators.false-subschema-not-dropped", fmt.Sprintf("%s#bool%d", f.Name, k), rs.Pos(), g.mustPassNode(r, sets),
-				"schemaState returns a boolean schema together with a schemaInfo whose hasConstraints was never set: allOf/anyOf/oneOf drop members without constraints, so `false` (which rejects everything) is dropped like `true`")
+				"schemaState returns a boolean schema together with a schemaInfo whose hasConstraints was never set: allOf drops members without constraints, so `false` (which rejects everything) is dropped like `true`")
 		}
 		if k == 0 {
 			c.check("combinators.false-subschema-not-dropped", f.Name, f.Decl.Pos(), false, "anchor: no return of boolSchema(...) found in schemaState")
